@@ -62,6 +62,53 @@ func TestHistoryPrunerEnum(t *testing.T) {
 				Expected: exp, Observed: obs, Input: enumInput{Shapes: []shape{sh}, Only: &o}})
 		}
 		rng := func(n int) *rand.Rand { return rand.New(rand.NewSource(seed*31 + int64(si)*7 + int64(n))) }
+		// the recorded L1 head relative to the local head: equal, ahead by less / by more than the
+		// retention (a node that is still catching up and is restarted with pruning enabled).
+		// Retention rule: oldest retained block = min(L1 head, local head) - retained, and every
+		// retained block is complete.
+		for _, ahead := range []int64{0, 3, 8} {
+			o := only{Mode: "l1-position", K1: int(ahead)}
+			if in.Only != nil && (in.Only.Mode != o.Mode || in.Only.K1 != int(ahead)) {
+				continue
+			}
+			st := p.base.Copy()
+			pos := uint64(int64(p.height()) + ahead)
+			head := &core.L1Head{BlockNumber: pos, BlockHash: hdr.Hash, StateRoot: hdr.GlobalStateRoot}
+			if ahead == 0 {
+				hh, _ := core.GetBlockHeaderByNumber(st, pos)
+				head.BlockHash, head.StateRoot = hh.Hash, hh.GlobalStateRoot
+			}
+			if err := core.WriteL1Head(st, head); err != nil {
+				t.Fatal(err)
+			}
+			r := runMigrations(st, faultkv.Off, 0, rng(int(900+ahead)), true)
+			runs++
+			sequences++
+			pos0 := "equal to"
+			if ahead > 0 {
+				pos0 = fmt.Sprintf("%d ahead of", ahead)
+			}
+			if r.err != nil || r.hang != nil {
+				report("historypruner-migration:l1-head-ahead-of-local-head:run-fails",
+					fmt.Sprintf("recorded L1 head %d, %s the local head %d: the migration fails: %v %v", pos, pos0, p.height(), r.err, r.hang), o, "migrations complete", fmt.Sprint(r.err))
+				continue
+			}
+			want := p.height() - 5
+			got, err := pruner.OldestRetainedBlock(st)
+			if err != nil || got != want {
+				report("historypruner-migration:l1-head-ahead-of-local-head:prunes-retained-blocks",
+					fmt.Sprintf("recorded L1 head %d, %s the local head %d, 5 blocks retained: the oldest retained block must be min(L1 head, local head) - 5 = %d, the migration left %d (%v): blocks that must be retained were pruned", pos, pos0, p.height(), want, got, err), o, want, got)
+				continue
+			}
+			q := *p
+			q.first = want
+			for _, pr := range sweep(st, &q, true) {
+				report("historypruner-migration:l1-position:"+pr.Kind, fmt.Sprintf("recorded L1 head %d, %s the local head: retained block %d: %s", pos, pos0, pr.Block, pr.What), o, pr.Want, pr.Got)
+			}
+		}
+		if in.Only != nil && in.Only.Mode == "l1-position" {
+			continue
+		}
 		ref := p.base.Copy()
 		r0 := runMigrations(ref, faultkv.Off, 0, rng(0), true)
 		runs++
